@@ -213,7 +213,10 @@ inline T_Wrap<T_Rhs*, T_Sbx> memcpy(rlbox_sandbox<T_Sbx>& sandbox,
       sandbox, src_start, num_val);
   }
 
-  std::memcpy(dest_start, src_start, num_val);
+  // Source and destination may both be pointers the sandbox chose: whether
+  // the two ranges overlap is not something the application can know, so
+  // overlap must not be undefined behaviour
+  std::memmove(dest_start, src_start, num_val);
 
   return dest;
 }
